@@ -386,6 +386,42 @@ fn gen_tworoutes(rng: &mut Rng) -> Vec<Op> {
     ops
 }
 
+/// a parent `P = k(x, c)` with parents of its own and a small twin `M = k(b, c)` without any: `x = b` (with `x`, the big one, as
+/// the left operand) improves `x`'s class, the re-canonicalised `P` collides with `M`, `P`'s class survives the congruence
+/// union and its improved datum has to reach ITS parents although the merge itself changes nothing any more
+fn gen_twinsmall(rng: &mut Rng) -> Vec<Op> {
+    let sym = |s: &str| ATerm { v: 16, fields: vec![CField::Lit(s.into())], children: vec![] };
+    let num = |s: &str| ATerm { v: 15, fields: vec![CField::Lit(s.into())], children: vec![] };
+    let h = |a: ATerm| ATerm { v: 13, fields: vec![CField::App], children: vec![a] };
+    let bin = |v: usize, a: ATerm, b: ATerm| ATerm { v, fields: vec![CField::App, CField::App], children: vec![a, b] };
+    let chain = |n: usize, leaf: ATerm| (0..n).fold(leaf, |t, _| h(t));
+    let x = chain(rng.range(3, 5), sym("zx"));
+    let b = sym("b");
+    let c = if rng.chance(1, 2) { sym("c") } else { num("1") };
+    let op = if rng.chance(1, 2) { 14 } else { 4 };
+    let p = bin(op, x.clone(), c.clone());
+    let m = bin(op, b.clone(), c.clone());
+    let mut terms: Vec<ATerm> = Vec::new();
+    for i in 0..rng.below(5) {
+        terms.push(num(&format!("{}", 30 + i)));
+    }
+    let ix = terms.len();
+    terms.push(x);
+    let ib = terms.len();
+    terms.push(b);
+    terms.push(p.clone());
+    terms.push(m);
+    for j in 0..rng.range(2, 4) {
+        terms.push(bin(5, p.clone(), num(&format!("{}", 2 + j))));
+    }
+    if rng.chance(1, 2) {
+        terms.push(h(bin(5, p.clone(), num("2"))));
+    }
+    let mut ops: Vec<Op> = terms.into_iter().map(Op::Add).collect();
+    ops.push(if rng.chance(3, 4) { Op::Union(ix, ib) } else { Op::Union(ib, ix) });
+    ops
+}
+
 /// a node that is waiting to be re-analysed when its class is merged away inside the same rebuild: `P = {k(a, w), app(a, c)}`,
 /// `Q = {k(b, w)}` with several parents (so that `P` is the class that moves), `a` big, `b` a leaf; `a = b` makes `k(a, w)` and
 /// `k(b, w)` congruent while `app(a, c)` — the node that carries the new best value of the merged class — is still queued.
@@ -432,6 +468,12 @@ fn gen_movedwait(rng: &mut Rng) -> Vec<Op> {
 pub fn run(ctx: &mut Ctx) {
     for _ in 0..ctx.count {
         let mut rng = ctx.rng.fork();
+        if rng.chance(1, 3) {
+            let ops = gen_twinsmall(&mut rng);
+            let desc = enc_ops(&ops);
+            emit_kind::<MinSize>(ctx, &ops, &[], 0, |d| d.to_string(), "minsize", &desc);
+            emit_kind::<MinDepth>(ctx, &ops, &[], 0, |d| d.to_string(), "mindepth", &desc);
+        }
         if rng.chance(1, 3) {
             let ops = gen_movedwait(&mut rng);
             let desc = enc_ops(&ops);
